@@ -1,5 +1,5 @@
 // C01 — every JSX element renders the vnode type and props its source denotes.
-import { mulberry32, held, violated, inconclusive, short, optLabel } from './lib.mjs';
+import { mulberry32, held, violated, inconclusive, short, optLabel, ALL_TAGS } from './lib.mjs';
 import { TAG_FORMS, ATTR_KINDS, PATTERNS, buildElemCase } from './elem.mjs';
 import { evalSemantic, firstDiff, pickVNode } from './semantic.mjs';
 
@@ -37,6 +37,10 @@ export function* generate({ tier, seed }) {
   for (const tf of TAG_FORMS) {
     yield mk(tf, [], OPTION_VARIANTS.filter((o) => !o.transformOn));
     yield mk(tf, ['strPlain', 'call'], tier === 'quick' ? [OPTION_VARIANTS[0], OPTION_VARIANTS[15]] : OPTION_VARIANTS);
+  }
+  // 1b. every standard HTML and SVG tag name, bare and with a child (exhaustive over the tag tables)
+  for (const [form, list] of [['html', ALL_TAGS.html], ['svg', ALL_TAGS.svg]]) for (const name of list) {
+    yield mk({ form, name }, rng.bool() ? [] : ['valueless'], [rng.pick(OPTION_VARIANTS)], { child: rng.bool() ? 'text' : 'none' });
   }
   // 2. every attribute kind alone and next to a spread, on an element and a component
   for (const tf of ENUM_TAGS) for (const k of ATTR_KINDS) {
@@ -121,7 +125,7 @@ export async function check(group, records) {
 export function meta({ tier }) {
   return {
     rule: 'G-ELEM: (tag form x ordered attribute-kind sequence x option set); every tag form bare and with attributes under all 16 option sets, every attribute kind alone / before / after a spread on an element and a component, all ordered sequences of length <= ' + (tier === 'quick' ? 2 : 3) + ' over a 12-kind alphabet, plus seeded random sequences of length <= 7. distinct_nontrivial counts distinct (tag form, attribute-kind sequence, option set) among conclusive evaluations that have >= 1 attribute or a non-string tag.',
-    exhaustive: [`all ordered attribute sequences of length 2..${tier === 'quick' ? 2 : 3} over 12 kinds x {div, imported component}`],
+    exhaustive: ['every standard HTML (118) and SVG (80) tag name', `all ordered attribute sequences of length 2..${tier === 'quick' ? 2 : 3} over 12 kinds x {div, imported component}`],
     assumptions: ['mock vue runtime is faithful to Vue 3 mergeProps/normalizeClass/normalizeStyle', 'SWC parser/resolver/hygiene/fixer/codegen are correct', 'repeated plain attribute names and identical repeated listeners are not generated (statement does not decide them)'],
   };
 }
